@@ -570,9 +570,9 @@ Proof.
   apply qsafe_bind; [apply qkeep_qsafe; qk|]. intros _.
   apply qsafe_bind; [apply qkeep_qsafe; qk|]. intros _.
   apply qsafe_bind; [|intros _; apply qkeep_qsafe; qk].
-  apply qsafe_mapM. intros [n t].
-  destruct (_ >? 0); [|apply qkeep_qsafe; qk].
+  apply qsafe_mapM. intros n.
   apply qsafe_bind; [apply qkeep_qsafe; qk|]. intros c.
+  destruct (_ >? 0); [|apply qkeep_qsafe; qk].
   apply qsafe_bind; [apply qkeep_qsafe; qk|]. intros d.
   apply qsafe_delay.
 Qed.
